@@ -23,7 +23,7 @@ import numpy as np
 
 
 class History(object):
-    def __init__(self, rng, data, allow_outliers=True, dict_hop_prob=0.3):
+    def __init__(self, rng, data, allow_outliers=True, dict_hop_prob=0.3, initial_forest=None):
         from phyclone.tree import Tree
 
         self.rng = rng
@@ -32,6 +32,13 @@ class History(object):
         self.grid = data[0].shape
         self.tree = Tree(self.grid)
         self.unassigned = [dp.idx for dp in data]
+        if initial_forest is not None:
+            # start from a given (large) tree instead of the empty one: built bottom-up, clones named 0..K-1
+            from vlib import gen
+
+            self.tree, _names = gen.build_tree(initial_forest, self.by_idx)
+            held = set(initial_forest.data_idxs())
+            self.unassigned = [dp.idx for dp in data if dp.idx not in held]
         self.allow_outliers = allow_outliers
         self.dict_hop_prob = dict_hop_prob
         self.log = []
